@@ -278,6 +278,10 @@ type GbnScenario struct {
 	RunFor     time.Duration    `json:"run_for"` // virtual time budget after handshake
 	Seed       int64            `json:"seed"`
 	RealTime   bool             `json:"real_time,omitempty"` // run outside a synctest bubble (wall clock)
+	// per-endpoint static resend timeout (client, server); overrides Static for that endpoint when > 0
+	StaticEP [2]time.Duration `json:"static_per_endpoint,omitempty"`
+	// receivers call Recv with this deadline and simply call again when it expires
+	RecvTimeout time.Duration `json:"recv_timeout,omitempty"`
 }
 
 type RandFault struct {
@@ -340,10 +344,16 @@ func (sc *GbnScenario) plan() FaultPlan {
 	}
 }
 
-func (sc *GbnScenario) opts() []gbn.Option {
+func (sc *GbnScenario) opts() []gbn.Option { return sc.optsFor(-1) }
+
+func (sc *GbnScenario) optsFor(ep int) []gbn.Option {
 	var to []gbn.TimeoutOptions
-	if sc.Static > 0 {
-		to = append(to, gbn.WithStaticResendTimeout(sc.Static))
+	static := sc.Static
+	if ep >= 0 && sc.StaticEP[ep] > 0 {
+		static = sc.StaticEP[ep]
+	}
+	if static > 0 {
+		to = append(to, gbn.WithStaticResendTimeout(static))
 	}
 	if sc.HsTimeout > 0 {
 		to = append(to, gbn.WithHandshakeTimeout(sc.HsTimeout))
@@ -400,12 +410,12 @@ func RunGbnBody(t *testing.T, sc *GbnScenario, body Body) *GbnResult {
 			wg.Add(2)
 			go func() {
 				defer wg.Done()
-				conns[1], errs[1] = gbn.NewServerConn(ctx, sim.sendFunc(1), sim.recvFunc(1), sc.opts()...)
+				conns[1], errs[1] = gbn.NewServerConn(ctx, sim.sendFunc(1), sim.recvFunc(1), sc.optsFor(1)...)
 				sim.log(Event{EP: 1, Kind: "hs-ret", Err: errStr(errs[1])})
 			}()
 			go func() {
 				defer wg.Done()
-				conns[0], errs[0] = gbn.NewClientConn(ctx, sc.N, sim.sendFunc(0), sim.recvFunc(0), sc.opts()...)
+				conns[0], errs[0] = gbn.NewClientConn(ctx, sc.N, sim.sendFunc(0), sim.recvFunc(0), sc.optsFor(0)...)
 				sim.log(Event{EP: 0, Kind: "hs-ret", Err: errStr(errs[0])})
 			}()
 			wg.Wait()
@@ -472,8 +482,14 @@ func defaultTraffic(sc *GbnScenario, sim *Sim, conns [2]*gbn.GoBackNConn, res *G
 		}()
 		go func() { // receiver
 			defer res.tw.Done()
+			if sc.RecvTimeout > 0 {
+				conns[ep].SetRecvTimeout(sc.RecvTimeout)
+			}
 			for {
 				b, err := conns[ep].Recv()
+				if err != nil && sc.RecvTimeout > 0 && strings.Contains(err.Error(), "timeout") {
+					continue // the deadline expired: ask again
+				}
 				sim.log(Event{EP: ep, Kind: "recv-ret", Pkt: b, Err: errStr(err)})
 				if err != nil {
 					res.rmu.Lock()
